@@ -304,6 +304,9 @@ func Run(f interface{}, n int, x Vector, args ...interface{}) (Vector, int64, er
       panic("invalid optional argument")
     }
   }
+  if n <= 0 {
+    return x, seed.Value, fmt.Errorf("invalid number of samples: %d", n)
+  }
   { m := 0
     if l1reg.Value != 0.0 { m++ }
     if l2reg.Value != 0.0 { m++ }
